@@ -1766,16 +1766,10 @@ void runScenario(Ctx &ctx, const Scenario &sc, bool strict)
     bool nontrivial = sc.good.files.size() >= 2 && sc.good.importEdges() >= 1;
     caseInfo(hex64(fnv1a(shape + "|" + cls + "|" + sc.fault.desc + "|" + mode)), nontrivial,
              sc.good.origin + " " + shape + " | fault: " + sc.fault.desc + " | " + mode);
-    // Isolation costs a fork of an ASan process (several ms), so it is used (a) where the statement's termination clause
-    // is at stake (import cycles, cyclic plain units) and (b) when the root depends on an import that is not on a pure
-    // import->import chain from the root (reached through an encapsulated child, a variable's units or a unit reference).
-    // Scenarios in which every import sits on a pure chain run in-process under the supervisor's crash handling.
-    bool isolate = sc.fault.type == Fault::CYCLE || sc.fault.type == Fault::UCYC || hasOffChainImport(sc.bad) || hasOffChainImport(sc.good);
-    if (!isolate) {
-        scenarioBody(sc, strict, dir, base, replay);
-        stat("scenarios_completed");
-        return;
-    }
+    // Every scenario runs in a forked child (cost: a fork of an ASan process, ~10 ms) so that crashes and non-termination
+    // are keyed by operation, fault class and position of the failing import.  Whether the root depends on an import
+    // that is not on a pure import chain (hasOffChainImport) is recorded as evidence.
+    stat(hasOffChainImport(sc.bad) ? "scenarios_with_off_chain_import" : "scenarios_pure_chains_only");
     stat("scenarios_isolated");
     ChildResult r = runIsolated([&]() { scenarioBody(sc, strict, dir, base, replay); });
     if (r.normal) {
